@@ -11,7 +11,7 @@ BEDK = 2300         # bed size in grid counts (~58 mm)
 MARGIN = 0.1
 
 
-def gen_path(rnd, regs):
+def gen_path(rnd, regs, arcs=False):
     """Abstract tool path on the grid: ('move', kx, ky, kz|None, dek, g) / ('z', kz) / ('retract',) / ('recover',) / ('misc', cmd)."""
     def pt(inside):
         for _ in range(300):
@@ -44,6 +44,25 @@ def gen_path(rnd, regs):
                 kz = max(4, kz + rnd.choice([-8, 8, 8, 16, 40]))
                 z = kz
             path.append(("move", kx, ky, z, rnd.randint(2, 60), "G1"))
+        elif k < 0.53 and arcs and not retracted:
+            # I/J arc about a grid centre; the end point is the rotated start, snapped to the grid (firmware tolerates the residue)
+            import math
+            for _ in range(20):
+                rad = rnd.choice([80, 140, 200, 360, 560])
+                a0 = rnd.uniform(0, 2 * math.pi)
+                ckx, cky = int(round(kx - rad * math.cos(a0))), int(round(ky - rad * math.sin(a0)))
+                sw = rnd.uniform(0.4, 5.5)
+                cw = rnd.random() < 0.5
+                a1 = math.atan2(ky - cky, kx - ckx) + (-sw if cw else sw)
+                r0 = math.hypot(kx - ckx, ky - cky)
+                ex, ey = int(round(ckx + r0 * math.cos(a1))), int(round(cky + r0 * math.sin(a1)))
+                if not (40 <= ex <= BEDK and 40 <= ey <= BEDK):
+                    continue
+                if regs and abs(depth_in(regs, ex * G, ey * G)) < MARGIN:
+                    continue
+                path.append(("arc", ckx, cky, ex, ey, cw, rnd.randint(2, 60)))
+                kx, ky = ex, ey
+                break
         elif k < 0.65:
             kx, ky = pt(rnd.random() < 0.4)
             z = None
@@ -76,7 +95,14 @@ def render(path, enc):
     RET = 120
 
     def num(k):
-        return fmt(k * 0.001, 3) if unit_in else fmt(k * G, 4)
+        t = fmt(k * 0.001, 3) if unit_in else fmt(k * G, 4)
+        if enc.get("dot"):
+            # legal spelling without the leading zero: .5 / -.5
+            if t.startswith("0."):
+                t = t[1:]
+            elif t.startswith("-0."):
+                t = "-" + t[2:]
+        return t
 
     def word(ax, target):
         i = "XYZ".index(ax)
@@ -109,6 +135,13 @@ def render(path, enc):
                 ek += dek
                 ws.append("E" + num(ek))
             steps.append(["g", g + " " + " ".join(ws)])
+        elif st[0] == "arc":
+            _, ckx, cky, ex, ey, cw, dek = st
+            i, j = (ckx + tx) - cur[0], (cky + ty) - cur[1]
+            ws = [word("X", ex + tx), word("Y", ey + ty), "I" + num(i), "J" + num(j)]
+            ek += dek
+            ws.append("E" + num(ek))
+            steps.append(["g", ("G2 " if cw else "G3 ") + " ".join(ws)])
         elif st[0] == "z":
             steps.append(["g", "G1 " + word("Z", st[1])])
         elif st[0] == "retract":
@@ -149,9 +182,11 @@ class C08(Monitor):
         regs = [r for r in gen_regions(rnd, rnd.choice([1, 1, 2, 3, 4])) if not (r[0] == "rect" and min(r[1], r[3]) < 0.5)]
         if not regs:
             regs = [["rect", 10.0, 10.0, 25.0, 25.0, "r0"]]
-        path = gen_path(rnd, regs)
         kind = rnd.choice(["inch"] * 3 + ["relative"] * 3 + ["translate"] * 3 + ["g92"])
-        enc = dict(kind=kind, at=rnd.randrange(1, len(path)))
+        # arcs only where both encodings sample them identically (same units): the property's quantifier has no arcs, the
+        # statement does not exclude them
+        path = gen_path(rnd, regs, arcs=(kind in ("relative", "translate") and rnd.random() < 0.5))
+        enc = dict(kind=kind, at=rnd.randrange(1, len(path)), dot=rnd.random() < 0.4)
         if kind == "g92":
             enc["shift"] = [rnd.randint(-2000, 2000), rnd.randint(-2000, 2000), rnd.randint(-100, 100)]
             enc["axes"] = rnd.choice(["XYZ", "XY", "X", "Y", "Z", "XZ"])
